@@ -113,7 +113,6 @@ func runC02InBubble(c c02Case) (out kit.Outcome) {
 	defer (*sched)(nil).install()
 	w := newWorld(st, t0)
 	kind := c.Stack.Kind
-	var completedWhileBlocked, gaveUp, coincide bool
 
 	check := func(when string) *kit.Outcome {
 		synctest.Wait()
@@ -145,77 +144,8 @@ func runC02InBubble(c c02Case) (out kit.Outcome) {
 		return nil
 	}
 
-	var doEv func(e c02Ev, inBurst bool)
-	doEv = func(e c02Ev, inBurst bool) {
-		switch e.K {
-		case "arrive":
-			cl := w.newCaller(e.Key, e.Hold, e.Outcome)
-			w.start(cl)
-		case "complete":
-			h := w.heldByHarness()
-			if len(h) == 0 {
-				return
-			}
-			cl := h[e.Idx%len(h)]
-			if len(w.blocked()) > 0 {
-				completedWhileBlocked = true
-			}
-			if e.Async || inBurst {
-				// mark first so that a second action of the same burst picks another token
-				w.mu.Lock()
-				if cl.Released {
-					w.mu.Unlock()
-					return
-				}
-				cl.Released = true
-				l := cl.L
-				w.mu.Unlock()
-				w.wg.Add(1)
-				go func() { defer w.wg.Done(); complete(l, e.Outcome) }()
-			} else {
-				w.release(cl, e.Outcome)
-			}
-		case "cancel":
-			all := w.snapshot()
-			var cand []int
-			for _, cl := range all {
-				if !cl.Canceled {
-					cand = append(cand, cl.ID)
-				}
-			}
-			if len(cand) == 0 {
-				return
-			}
-			cl := w.callers[cand[e.Idx%len(cand)]]
-			w.mu.Lock()
-			cl.Canceled = true
-			cl.CancelAt = w.now()
-			blockedNow := cl.Started && !cl.Done
-			w.mu.Unlock()
-			if blockedNow {
-				gaveUp = true
-			}
-			cl.cancel()
-		case "sleep":
-			before := len(w.blocked())
-			time.Sleep(time.Duration(e.D) * time.Millisecond)
-			synctest.Wait()
-			if len(w.blocked()) < before {
-				// somebody returned during the sleep: granted by a self-completing holder or gave up
-				for _, cl := range w.snapshot() {
-					if cl.Done && !cl.OK && cl.RetAt > cl.Arrived {
-						gaveUp = true
-					}
-				}
-			}
-		case "burst":
-			coincide = true
-			for _, a := range e.Acts {
-				doEv(a, true)
-			}
-		}
-	}
-
+	x := &evExec{w: w}
+	doEv := x.do
 	for i, e := range c.Evs {
 		doEv(e, false)
 		if o := check(fmt.Sprintf("after event %d (%s)", i, e.K)); o != nil {
@@ -234,9 +164,10 @@ func runC02InBubble(c c02Case) (out kit.Outcome) {
 	}
 	for _, cl := range w.snapshot() {
 		if cl.Done && !cl.OK && cl.RetAt > cl.Arrived {
-			gaveUp = true
+			x.gaveUp = true
 		}
 	}
+	completedWhileBlocked, gaveUp, coincide := x.completedWhileBlocked, x.gaveUp, x.coincide
 	if o := check("at the end"); o != nil {
 		return *o
 	}
@@ -326,4 +257,82 @@ func TestC02_sched_Coop(t *testing.T) {
 		Rule: "as TestC02_stacks plus a generated cooperative schedule (yield counts at the library's schedule points and around the injected delegate); same invariants",
 		Gen:  genC02(c02Kinds, true), Run: runC02,
 	})
+}
+
+// evExec executes generated events against a virtual-time world.
+type evExec struct {
+	w                                       *vtWorld
+	completedWhileBlocked, gaveUp, coincide bool
+	arrivedFull                             bool
+}
+
+func (x *evExec) do(e c02Ev, inBurst bool) {
+	w := x.w
+	switch e.K {
+	case "arrive":
+		cl := w.newCaller(e.Key, e.Hold, e.Outcome)
+		w.start(cl)
+	case "complete":
+		h := w.heldByHarness()
+		if len(h) == 0 {
+			return
+		}
+		cl := h[e.Idx%len(h)]
+		if len(w.blocked()) > 0 {
+			x.completedWhileBlocked = true
+		}
+		if e.Async || inBurst {
+			// mark first so that a second action of the same burst picks another token
+			w.mu.Lock()
+			if cl.Released {
+				w.mu.Unlock()
+				return
+			}
+			cl.Released = true
+			l := cl.L
+			w.mu.Unlock()
+			w.wg.Add(1)
+			go func() { defer w.wg.Done(); complete(l, e.Outcome) }()
+		} else {
+			w.release(cl, e.Outcome)
+		}
+	case "cancel":
+		all := w.snapshot()
+		var cand []int
+		for _, cl := range all {
+			if !cl.Canceled {
+				cand = append(cand, cl.ID)
+			}
+		}
+		if len(cand) == 0 {
+			return
+		}
+		cl := w.callers[cand[e.Idx%len(cand)]]
+		w.mu.Lock()
+		cl.Canceled = true
+		cl.CancelAt = w.now()
+		blockedNow := cl.Started && !cl.Done
+		w.mu.Unlock()
+		if blockedNow {
+			x.gaveUp = true
+		}
+		cl.cancel()
+	case "sleep":
+		before := len(w.blocked())
+		time.Sleep(time.Duration(e.D) * time.Millisecond)
+		synctest.Wait()
+		if len(w.blocked()) < before {
+			// somebody returned during the sleep: granted by a self-completing holder or gave up
+			for _, cl := range w.snapshot() {
+				if cl.Done && !cl.OK && cl.RetAt > cl.Arrived {
+					x.gaveUp = true
+				}
+			}
+		}
+	case "burst":
+		x.coincide = true
+		for _, a := range e.Acts {
+			x.do(a, true)
+		}
+	}
 }
